@@ -298,6 +298,12 @@ Definition format_field (v : val) (spec : string) : res string :=
           Ok (pad s fill (match al with Some a => a | None => "<"%char end) w)
       | VInt z, Some (fill, al, w) =>
           Ok (pad (str_of_Z z) fill (match al with Some a => a | None => ">"%char end) w)
+      | VBool b, Some (fill, al, w) =>          (* bool is an int: formats as 1 / 0 *)
+          Ok (pad (if b then "1" else "0") fill (match al with Some a => a | None => ">"%char end) w)
+      (* object.__format__ rejects every non-empty spec *)
+      | VNone, _ | VList _, _ | VTuple _, _ | VSet _, _ | VDict _, _ | VPy _ _, _ | VSic _, _
+      | VJsonify _, _ | VBytes _, _ =>
+          Err "TypeError" ("unsupported format string passed to " ++ type_name v ++ ".__format__")
       | _, _ => Unsup
       end
   end.
